@@ -34,11 +34,12 @@ package nbhttp
 // ---- Response: the two pooled buffers it may hold are live and distinct (C11)
 //@ pred ResOwn(res *Response) := (res.buffer != nil ==> liveP[res.buffer]) && (res.bodyBuffer != nil ==> liveP[res.bodyBuffer]) && (res.buffer != nil && res.bodyBuffer != nil ==> res.buffer != res.bodyBuffer)
 //@ pred ResWired(res *Response) := res.Parser != nil && res.request != nil
-//@ pred HeadInv(res *Response, pdata *[]byte, top0 int) := pdata != nil && liveP[pdata] && pdata > top0 && res.trailer != nil && res.headEncoded
+//@ pred HeadInv(res *Response, pdata *[]byte, top0 int) := pdata != nil && liveP[pdata] && pdata > top0 && base(*pdata) > top0 && res.trailer != nil && res.headEncoded
 //@ pred buflen(p *[]byte) := ite(p == nil, 0, len(*p))
 
 //@ ghost local Response.gLen0 : Int
 //@ ghost local Response.gLenStr : Int
+//@ ghost local Response.gStr : Str
 
 //@ func (*Response).WriteHeader
 //@   props C09
@@ -72,16 +73,16 @@ package nbhttp
 //@   requires ResOwn(res) && res.request != nil
 //@   ensures !old(res.headEncoded) ==> res.buffer != nil && fresh(res.buffer) && liveP[res.buffer]
 //@   ensures old(res.headEncoded) ==> res.buffer == old(res.buffer)
-//@   ensures res.headEncoded && res.bodyBuffer == old(res.bodyBuffer) && (forall q int :: q <= old(top) ==> liveP[q] == old(liveP[q]) && box(q, "[]byte") == old(box(q, "[]byte")))
+//@   ensures res.headEncoded && res.bodyBuffer == old(res.bodyBuffer) && (forall q int :: q <= old(top) ==> liveP[q] == old(liveP[q]) && box(q, "[]byte") == old(box(q, "[]byte")) && bytes_row(q) == old(bytes_row(q)))
 //@   assigns res.headEncoded, res.buffer, res.trailer, res.trailerSize, liveP, allboxes("[]byte"), allelems("byte"), allmaps("string", "string"), allocates
 //@   loop 1
 //@     invariant rangeindex >= -1
-//@     invariant HeadInv(res, pdata, old(top)) && (forall q int :: q <= old(top) ==> liveP[q] == old(liveP[q]) && box(q, "[]byte") == old(box(q, "[]byte")))
+//@     invariant HeadInv(res, pdata, old(top)) && (forall q int :: q <= old(top) ==> liveP[q] == old(liveP[q]) && box(q, "[]byte") == old(box(q, "[]byte")) && bytes_row(q) == old(bytes_row(q)))
 //@   loop 2
-//@     invariant HeadInv(res, pdata, old(top)) && (forall q int :: q <= old(top) ==> liveP[q] == old(liveP[q]) && box(q, "[]byte") == old(box(q, "[]byte")))
+//@     invariant HeadInv(res, pdata, old(top)) && (forall q int :: q <= old(top) ==> liveP[q] == old(liveP[q]) && box(q, "[]byte") == old(box(q, "[]byte")) && bytes_row(q) == old(bytes_row(q)))
 //@   loop 3
 //@     invariant rangeindex >= -1
-//@     invariant HeadInv(res, pdata, old(top)) && (forall q int :: q <= old(top) ==> liveP[q] == old(liveP[q]) && box(q, "[]byte") == old(box(q, "[]byte")))
+//@     invariant HeadInv(res, pdata, old(top)) && (forall q int :: q <= old(top) ==> liveP[q] == old(liveP[q]) && box(q, "[]byte") == old(box(q, "[]byte")) && bytes_row(q) == old(bytes_row(q)))
 //@ func (*Response).formatInt
 //@   props C09
 //@   safety index slice nil div assert panic make
@@ -89,9 +90,10 @@ package nbhttp
 //@   requires base == 16 && len(numMap) == 16
 //@   ensures 0 <= old(n) && old(n) <= 2147483647 ==> 1 <= len(result) && len(result) <= 8
 //@   ensures (old(n) < 0 || old(n) > 2147483647) ==> len(result) == 0
-//@   assigns res.intFormatBuf, allelems("byte"), allocates
+//@   assigns res.intFormatBuf, allocates
 //@   loop 1
 //@     invariant 2 <= i && i <= 10 && n >= 0 && base == 16
+//@     invariant forall q int :: q != base(buf) ==> bytes_row(q) == old(bytes_row(q))
 //@     invariant (i == 10 ==> n <= 2147483647) && (i == 9 ==> n <= 134217727) && (i == 8 ==> n <= 8388607) && (i == 7 ==> n <= 524287) && (i == 6 ==> n <= 32767) && (i == 5 ==> n <= 2047) && (i == 4 ==> n <= 127) && (i == 3 ==> n <= 7) && (i == 2 ==> false)
 //@     decreases i
 
@@ -112,12 +114,17 @@ package nbhttp
 //@   props C09 C11
 //@   safety index slice nil div assert panic make
 //@   requires ResWired(res) && ResOwn(res) && conn != nil && l == len(data) && l > 0 && res.bodyBuffer == nil
+//@   requires noalias: res.buffer != nil ==> base(data) != base(*res.buffer)
 //@   ensures n: result1 == nil ==> result0 == l                                                                       // prop C09
 //@   ensures own: ResOwn(res)                                                                                          // prop C11
 //@   ensures conserve: result1 == nil ==> gOut - old(gOut) + buflen(res.buffer) == res.gLen0 + res.gLenStr + l + 4   // prop C09
-//@   assigns res.headEncoded, res.buffer, res.trailer, res.trailerSize, res.intFormatBuf, res.gLen0, res.gLenStr, gOut, liveP, allboxes("[]byte"), allelems("byte"), allmaps("string", "string"), allocates
+//@   note when nothing was sent the chunk sits in the buffer after what was there: size line, CR LF, the data, CR LF
+//@   ensures crlf: result1 == nil && gOut == old(gOut) ==> (*res.buffer)[res.gLen0 + res.gLenStr] == 13 && (*res.buffer)[res.gLen0 + res.gLenStr + 1] == 10 && (*res.buffer)[res.gLen0 + res.gLenStr + 2 + l] == 13 && (*res.buffer)[res.gLen0 + res.gLenStr + 3 + l] == 10   // prop C09
+//@   ensures payload: result1 == nil && gOut == old(gOut) ==> (forall p int {mem(*res.buffer, p)} :: off(*res.buffer) + res.gLen0 + res.gLenStr + 2 <= p && p < off(*res.buffer) + res.gLen0 + res.gLenStr + 2 + l ==> mem(*res.buffer, p) == memold(data, p - off(*res.buffer) - res.gLen0 - res.gLenStr - 2 + off(data)))   // prop C09
+//@   ensures sizeline: result1 == nil && gOut == old(gOut) ==> (forall j int :: 0 <= j && j < res.gLenStr ==> (*res.buffer)[res.gLen0 + j] == res.gStr[j])   // prop C09
+//@   assigns res.headEncoded, res.buffer, res.trailer, res.trailerSize, res.intFormatBuf, res.gLen0, res.gLenStr, res.gStr, gOut, liveP, allboxes("[]byte"), allelems("byte"), allmaps("string", "string"), allocates
 //@   at call:eoncodeHead#1 ghost { res.gLen0 = buflen(res.buffer) }
-//@   at call:formatInt#1 ghost { res.gLenStr = len(result) }
+//@   at call:formatInt#1 ghost { res.gLenStr = len(result); res.gStr = result }
 
 // ---- Write: every successful Write reports exactly the number of bytes it was given (C09); ownership (C11)
 //@ func (*Response).Write
@@ -126,6 +133,7 @@ package nbhttp
 //@   note a Response without a connection (Parser.Conn == nil: only built by the parser unit tests) discards the data and returns (0, nil); the property speaks about responses on a wire
 //@   requires ResWired(res) && ResOwn(res) && (res.chunked ==> res.bodyBuffer == nil) && (!res.chunkChecked ==> res.bodyBuffer == nil)
 //@   requires wired: res.Parser.Conn != nil
+//@   requires noalias: res.buffer != nil ==> base(data) != base(*res.buffer)
 //@   ensures n: result1 == nil ==> result0 == len(data)                                                               // prop C09
 //@   ensures own: ResOwn(res)                                                                                          // prop C11
 //@   note conservation: what went to the connection plus what is still buffered is what was buffered (after the head was encoded, if this call encoded it) plus the data plus, when chunked, the chunk framing
